@@ -102,6 +102,7 @@ type evalCtx struct {
 	bound []map[string]Term
 	lets  map[string]Expr
 	cells map[string]*Loc // names bound to memory cells (captured variables of closures): read in the current state
+	opaque map[string]*Loc // parameters that are addresses of a struct-valued field (opaque pointers): name -> location
 	ft    *funcTrans
 }
 
@@ -258,6 +259,7 @@ func (c *evalCtx) eval(e Expr) Term {
 		cond := c.evalBool(x.C)
 		a, b := c.eval(x.T), c.eval(x.F)
 		a, b = c.unify(a, b)
+		a, b = c.concrete(a), c.concrete(b)
 		return Term{fmt.Sprintf("(ite %s %s %s)", cond.S, a.S, b.S), a.Sort}
 	case *EUnary:
 		switch x.Op {
@@ -985,6 +987,15 @@ func (c *evalCtx) call(x *ECall) Term {
 			c.fail("heapof: not a struct field: %s", fe.String())
 		}
 		return Term{w.heapSym(c.st, h), &Sort{Name: w.heapSorts[h], Kind: KOther}}
+	case "faddr":
+		// faddr(p, k): the (opaque) address of the k-th field of the object p points to
+		a := c.eval(x.Args[0])
+		k, ok := x.Args[1].(*EInt)
+		if !ok {
+			c.fail("faddr(p, <field index>)")
+		}
+		w.declFaddr()
+		return Term{fmt.Sprintf("(faddr %s %s)", a.S, k.V), &Sort{Name: "Int", Kind: KOther}}
 	case "deref":
 		// deref(p): value of the scalar cell p points to
 		a := c.eval(x.Args[0])
